@@ -148,6 +148,9 @@ def main(argv=None):
     if args.tier == "thorough":
         os.environ["VERIF_XCHECK"] = "1"  # every distinct proved obligation is re-run on /usr/bin/z3 4.8.12 and cvc5
     tasks = prop.tasks(args.tier)
+    from props import _premise
+
+    tasks = tasks + _premise.premise_tasks(unbounded_only=getattr(prop, "LEVEL", "") == "proof")  # the dispatch core: a premise of every property (props/_premise.py)
     tasks = list({t["name"]: t for t in reversed(tasks)}.values())[::-1]  # a task shared by two task lists runs once
     if not any(t["name"] == "frames.state" for t in tasks):
         # premise of every property: the contracts quantify over the declared state of the library (contracts/state_c.py);
